@@ -67,6 +67,10 @@ pub axiom fn utf8_injective(a: &str, b: &str)
     requires a.spec_bytes() == b.spec_bytes()
     ensures a@ == b@;
 
+pub broadcast axiom fn utf8_injective_b(a: &str, b: &str)
+    requires a.spec_bytes() == b.spec_bytes()
+    ensures #![trigger a.spec_bytes(), b.spec_bytes()] a@ == b@;
+
 pub proof fn lemma_occurs_shift(h: Seq<u8>, n: Seq<u8>, from: int, j: int)
     requires 0 <= from <= h.len()
     ensures occurs_at(h.subrange(from, h.len() as int), n, j) == (occurs_at(h, n, from + j) && j >= 0)
@@ -109,6 +113,18 @@ pub broadcast axiom fn str_ends_are_boundaries(s: &str)
     ensures #![trigger s.spec_bytes()]
         vstd::utf8::is_char_boundary(s.spec_bytes(), 0),
         vstd::utf8::is_char_boundary(s.spec_bytes(), s.spec_bytes().len() as int);
+
+// UTF-8 is self-synchronising: where one (valid) string occurs inside another, the occurrence ends on a
+// character boundary of the enclosing string
+pub broadcast axiom fn occurrence_boundaries(u: &str, h: &str, i: int)
+    requires #[trigger] occurs_at(u.spec_bytes(), h.spec_bytes(), i)
+    ensures vstd::utf8::is_char_boundary(u.spec_bytes(), i + h.spec_bytes().len());
+
+// the same for a String, whose bytes are encode_utf8(view)
+pub broadcast axiom fn utf8_ends_are_boundaries(t: Seq<char>)
+    ensures #![trigger vstd::utf8::encode_utf8(t)]
+        vstd::utf8::is_char_boundary(vstd::utf8::encode_utf8(t), 0),
+        vstd::utf8::is_char_boundary(vstd::utf8::encode_utf8(t), vstd::utf8::encode_utf8(t).len() as int);
 
 pub broadcast axiom fn str_len_fits(s: &str)
     ensures #[trigger] s.spec_bytes().len() <= usize::MAX;
